@@ -319,10 +319,13 @@ void watch(int d, int ms, int eid, int nseq, const int* seqs) {
 #define W_WATCH(D, MS) if (d == D && ms == MS) { if (nseq == 0) p = NAMED_REQUIRE_DESTRUCTION(o); else if (nseq == 1) p = NAMED_REQUIRE_DESTRUCTION(o).IN_SEQUENCE(wseq(seqs[0])); else p = NAMED_REQUIRE_DESTRUCTION(o).IN_SEQUENCE(wseq(seqs[0]), wseq(seqs[1])); line = __LINE__; }
   W_WATCH(0, 0)
   W_WATCH(0, 1)
+  W_WATCH(0, 2)
   W_WATCH(1, 0)
   W_WATCH(1, 1)
+  W_WATCH(1, 2)
   W_WATCH(2, 0)
   W_WATCH(2, 1)
+  W_WATCH(2, 2)
 #undef W_WATCH
   S->mon[d][ms] = std::move(p);
   S->monline[d][ms] = line;
